@@ -398,10 +398,10 @@ def _unit_tabulate(ctx, cls: str) -> None:
         ctx.unverified("UNIT.tabulated", f"{cls}", f"_MODIFIERS_VALID_UNITS: {e}", m.rel)
         return
     H, M30, US1 = _dt.timedelta(hours=1), _dt.timedelta(minutes=30), _dt.timedelta(microseconds=1)
-    dates = [(2024, 2, 29), (2000, 1, 1), (1999, 12, 31), (2021, 3, 14), (2030, 12, 31), (2001, 1, 1), (2021, 11, 7)]
+    dates = [(2024, 2, 29), (2000, 1, 1), (1999, 12, 31), (2021, 3, 14), (2030, 12, 31), (9999, 12, 15), (2001, 1, 1), (2021, 11, 7)]      # (9999-12: nothing lies after the unit)
     times = [(0, 0, 0, 0), (12, 34, 56, 789012), (23, 59, 59, 999999), (1, 45, 30, 500000)]
     if not deep:
-        dates, times = dates[:5], times[:3]
+        dates, times = dates[:6], times[:3]
     small = ("second", "minute", "hour")
     for which in ("start_of", "end_of"):
         bad, n = [], 0
@@ -411,10 +411,12 @@ def _unit_tabulate(ctx, cls: str) -> None:
                 for d in dates:
                     for t in (times if is_dt else times[:1]):
                         w0 = _dt.datetime(*d, *t)
+                        if unit == "century" and d[0] == 9999:
+                            continue        # the century 9901-10000 has no representable end
                         for ws in (range(7) if unit == "week" and d in (dates[3], dates[0], dates[4]) and t == times[0] else (0,)):      # a Sunday, a Thursday, a Tuesday x every first day of the week
                             lo, hi = _bounds(w0, unit, ws)
                             trs = [None]
-                            if is_dt and (deep or d in dates[:4]):
+                            if is_dt and (deep or d in dates[:4]) and d[0] < 9999:
                                 trs += [("skip", lo, H), ("skip", lo, M30), ("repeat", lo + H, H), ("repeat", lo + M30, M30),
                                         ("skip", hi + US1 - M30, M30), ("skip", hi + US1 - H, H), ("repeat", hi + US1, H), ("repeat", hi + US1, M30)]
                             for tr in trs:
